@@ -80,7 +80,6 @@ P_ploop_ninv == P("tight", <<"ploop", "ninv">>)
 P_invloop == P("invloop", <<>>)
 P_xht == P("tight", <<"xht">>)
 P_xhe == P("tight", <<"xhe">>)
-P_xht_deeprec == P("deeprec", <<"xht">>)
 P_envnil == P("tight", <<HC("_python_append_env", "nil")>>)
 
 Spec == LTInit(Progs) /\ [][LTNext]_vars /\ Fair
